@@ -372,7 +372,9 @@ func (c *Client) doWithRedirects(cli *http.Client, req *http.Request, remote str
 		return nil, errors.New(tr.Tr.Get("failed to redirect request"))
 	}
 
-	return c.doWithRedirects(cli, redirectedReq, remote, via)
+	// DoWithRedirect only appends to its own copy of "via": record the hop
+	// here so that the limit on the number of redirects is actually reached.
+	return c.doWithRedirects(cli, redirectedReq, remote, append(via, req))
 }
 
 func (c *Client) configureProtocols(u *url.URL, transport *http.Transport) error {
